@@ -113,6 +113,7 @@ type vpCfg struct {
 
 	// not part of the abstract record: an existing Redis to share (a restarted / second proxy instance)
 	shareRedis *miniredis.Miniredis `json:"-"`
+	shareIdP   *vpIdP               `json:"-"`
 }
 
 type vpUpstreamCfg struct {
@@ -199,6 +200,7 @@ type vpWorld struct {
 	xidp    *vpIdP // extra JWT issuer (bearer only)
 	mr      *miniredis.Miniredis
 	mrShared bool
+	idpShared bool
 	redis   *vpRedisHook
 	ups     map[string]*vpUpstream
 	upOrder []string
@@ -244,7 +246,11 @@ func vpNewWorld(cfg *vpCfg) (*vpWorld, error) {
 		return nil, err
 	}
 	w.tmp = tmp
-	w.idp = vpNewIdP("main")
+	if cfg.shareIdP != nil {
+		w.idp, w.idpShared = cfg.shareIdP, true
+	} else {
+		w.idp = vpNewIdP("main")
+	}
 	if cfg.ExtraIssuer {
 		w.xidp = vpNewIdP("extra")
 	}
@@ -525,7 +531,7 @@ func vpHeaders(hs []vpHeaderCfg) []options.Header {
 }
 
 func (w *vpWorld) close() {
-	if w.idp != nil {
+	if w.idp != nil && !w.idpShared {
 		w.idp.close()
 	}
 	if w.xidp != nil {
